@@ -109,6 +109,10 @@ pub enum Mode {
     Task,
     /// the future is wrapped in `with_cancel(token)`; the harness holds future and token
     Token,
+    /// handed over: the harness polls the future once by hand with a waker of its own (the
+    /// Submit step: a probe), and the first Poll step moves the still pending future into a
+    /// spawned task that awaits it; from then on the harness holds the JoinHandle only
+    Handover,
 }
 
 impl Mode {
@@ -117,6 +121,7 @@ impl Mode {
             Mode::Direct => "d",
             Mode::Task => "t",
             Mode::Token => "c",
+            Mode::Handover => "h",
         }
     }
 
@@ -125,6 +130,7 @@ impl Mode {
             "d" => Mode::Direct,
             "t" => Mode::Task,
             "c" => Mode::Token,
+            "h" => Mode::Handover,
             _ => return None,
         })
     }
@@ -136,6 +142,9 @@ pub struct OpSpec {
     pub mode: Mode,
     /// resource index; operations with the same index use the same descriptor
     pub res: u8,
+    /// "@0x": the operation uses a descriptor of its own that is a dup() of the resource's
+    /// descriptor (same socket / pipe end, same byte stream, another descriptor number)
+    pub dup: bool,
 }
 
 #[derive(Clone, Debug, PartialEq, Eq)]
@@ -150,7 +159,7 @@ impl Program {
     pub fn name(&self) -> String {
         self.ops
             .iter()
-            .map(|o| format!("{}.{}@{}", o.kind.name(), o.mode.name(), o.res))
+            .map(|o| format!("{}.{}@{}{}", o.kind.name(), o.mode.name(), o.res, if o.dup { "x" } else { "" }))
             .collect::<Vec<_>>()
             .join("+")
     }
@@ -160,10 +169,19 @@ impl Program {
         for part in s.split('+') {
             let (km, res) = part.split_once('@')?;
             let (k, m) = km.split_once('.')?;
+            let (res, dup) = match res.strip_suffix('x') {
+                Some(r) => (r, true),
+                None => (res, false),
+            };
+            let kind = Kind::parse(k)?;
+            if dup && !matches!(kind, Kind::Recv | Kind::Read) {
+                return None;
+            }
             ops.push(OpSpec {
-                kind: Kind::parse(k)?,
+                kind,
                 mode: Mode::parse(m)?,
                 res: res.parse().ok()?,
+                dup,
             });
         }
         Some(Program { ops, max_ready })
